@@ -736,6 +736,7 @@ func newC15Signer() (*c15Signer, error) {
 	if _, err := h.GetKeyring(); err != nil {
 		return nil, fmt.Errorf("keyring: %w", err)
 	}
+	_ = os.RemoveAll(dir) // the memory backend keeps nothing on disk
 	return &c15Signer{h: h, have: map[string]bool{}}, nil
 }
 
